@@ -210,7 +210,8 @@ class ComponentState(object):
                         except TypeError as error:
                             pass
 
-                    return componentState
+                    # VV: emit a snapshot, downstream operators run in other threads and must not see later updates
+                    return dict(componentState)
 
                 return UpdateStateBasedOnEngine
 
